@@ -37,8 +37,8 @@ ASSUMPTIONS = [
     "repositories larger than the bound (see bounds) other than the full universe are not covered",
 ]
 BOUNDS = {
-    "quick": "universe 3 cats x 3 pkgs x 2 versions: all repos with <=1 package + 10 fixed larger ones incl. all-version-1 and full (29 repos); 9166 restriction trees (depth<=2) + 458 case-insensitive trees on all 16 repos of a 2x2x1 universe; wrapper/stack modes on 5 repos x 3 partners x both orders",
-    "thorough": "same universe: all repos with <=2 packages + the same larger ones (181 repos); 52270 restriction trees (depth<=2, arity<=3, 4-leaf trees with all node negations, exactly-one/at-most-one inner nodes); wrapper/stack modes as quick",
+    "quick": "universe 3 cats x 3 pkgs x 2 versions: all repos with <=1 package + 10 fixed larger ones incl. all-version-1 and full (29 repos); 9166 restriction trees (depth<=2) + 458 case-insensitive trees on all 16 repos of a 2x2x1 universe; 5 core query modes on every repo, 7 wrapper modes on 5 repos, 4 stack modes on 5 repos x 3 partners x both orders",
+    "thorough": "same universe: all repos with <=2 packages + the same larger ones (180 repos); 41454 restriction trees (depth<=2, arity<=3, 3-leaf trees over 7 leaves with exactly-one/at-most-one inner nodes, 4-leaf trees with all node negations) + the 458 case-insensitive trees; modes as quick",
 }
 
 # ----------------------------------------------------------------------------------------------
@@ -162,8 +162,8 @@ def core_leaves(uni, size):
         return [c_a, c_a_w, p_p, p_p_w]
     if size == 5:
         return [c_a, c_a_w, p_p, p_p_w, c_pre]
-    if size == 8:
-        return [c_a, c_a_w, p_p, p_p_w, c_pre, p_suf, ver, c_ab]
+    if size == 7:
+        return [c_a, c_a_w, p_p, p_p_w, c_pre, p_suf, ver]
     return [c_a, c_a_w, c_a_v, c_ab, c_pre, c_pre_w, p_p, p_p_w, p_p_v, p_pq, p_suf, p_suf_w, ver, at, tr]
 
 
@@ -209,7 +209,7 @@ def restrictions_of(tier, uni):
         for neg in (0, 1):
             out.extend([k, neg, [x, y, z]] for x in C5 for y in C5 for z in C5)
     # depth 2, three leaves: outer(inner(x,y), z) and outer(z, inner(x,y))
-    C3 = C5 if tier == "quick" else core_leaves(uni, 8)
+    C3 = C5 if tier == "quick" else core_leaves(uni, 7)
     inner_kinds = ("and", "or") if tier == "quick" else kinds4
     for ok in ("and", "or"):
         for oneg in (0, 1):
